@@ -17,6 +17,53 @@ CHECKS = {
    design_ref='5 (C06), 3',
    note=TB + ' Table contents come from a native run of the real initialisers (not executed symbolically); the check is of the resulting lookup.',
    technique='symbolic execution of rustc MIR into z3 bit-vector terms; per-square unsat queries (simplify/bit-blast/sat), native replay of models'),
+ 'C02': dict(
+   category='proof',
+   text=('One inductive step from an arbitrary position: twelve free 64-bit piece sets, free clocks, rights, en-passant file, previous undo record and an '
+         'arbitrary set of earlier keys, constrained only by the representation invariant; an arbitrary consistent move record; the real make_move, '
+         'unmake_move and is_legal_move run symbolically from MIR; z3 shows that every component (15 piece sets, turn, counters, en-passant, '
+         'undo stack, key, record of earlier positions) is restored, that the invariant holds again after make (so the step nests to any depth), '
+         'and that no panic is reachable. Case split only over enum discriminants (118 move shapes). Models are replayed on the native build.'),
+   design_ref='5 (C02), 4.1, 4.2',
+   note=TB + ' HashSet/Vec per std documentation; history stack = unread older part + top record; is_in_check (a &self method) is a free Bool in the legality-probe obligation; Zobrist words uninterpreted.',
+   technique='symbolic execution of rustc MIR into z3 (bit-vectors, arrays, uninterpreted functions); inductive step with representation invariant; per-shape unsat queries; native replay'),
+ 'C03': dict(
+   category='proof',
+   text=('Same inductive step: make_move run from MIR on an arbitrary invariant-satisfying position and consistent move record, compared by z3 with an '
+         'independent rules update (placement incl. castling rook / en-passant victim / promotion, side to move, each castling right with monotonicity, '
+         'en-passant file, half-move clock, full-move number, pushed undo record, record of earlier positions = old + key of S). '
+         'Induction over game length with C07 (start / FEN satisfy the invariant).'),
+   design_ref='5 (C03), 4.3',
+   note=TB + ' Moves are assumed consistent with the position (Cons); that only legal moves reach make_move is C01/C08.',
+   technique='symbolic execution of rustc MIR into z3; differential against an independent reference update; per-shape unsat queries; native replay judged by a mailbox reference'),
+ 'C04': dict(
+   category='proof',
+   text=('The from-scratch key F is obtained by running impl From<&Board> for ZKey symbolically; for every invariant-satisfying S with zkey == F(S) and every '
+         'consistent move, zkey after make_move == F(S\'). The 64-square XOR identity is split into per-square lemmas (64 z3 queries per shape), a rights/ep/turn lemma, '
+         'the incremental-update lemma and a selector-sum lemma, all decided by z3 with the Zobrist words uninterpreted (any table); the XOR regrouping that '
+         'combines them is checked by GF(2) elimination in the harness (documented as not an SMT step). F reads only placement, turn, rights, ep (checked on the term).'),
+   design_ref='5 (C04)',
+   note=TB + ' Composition step (XOR associativity/commutativity over 64 summands) is linear algebra in the harness, not SMT (z3 gives no verdict on parity chains). Unmake: by C02.',
+   technique='symbolic execution of rustc MIR into z3 with uninterpreted Zobrist words; lemma decomposition of the XOR identity; 8.4k unsat queries; native replay (incremental vs from-scratch key)'),
+ 'C05': dict(
+   category='proof',
+   text=('Lemma A: the from-scratch key computation is executed from MIR on a fully symbolic board with the real table; its XOR-summands are shown by z3, '
+         'one per square, to be exactly the table word of that square\'s content (colour and kind both matter, empty = 0), plus the word of each available '
+         'castling right, of the en-passant file, and of the side to move. Lemma B: z3 over symbolic indices shows that per square the 12 words and 0 are '
+         'pairwise different and that all 2x16x9 side/rights/en-passant states have pairwise different keys. Hence every single-component perturbation '
+         'changes the key. The all-pairs clause is not claimed (false for any 64-bit Zobrist scheme).'),
+   design_ref='5 (C05)',
+   note=TB + ' The table is the native dump of ZTable::init (ChaCha8 not executed symbolically). Composition A+B => perturbation theorem is XOR regrouping.',
+   technique='symbolic execution of rustc MIR into z3 bit-vector terms; per-summand unsat queries against the table; table distinctness as SAT over mux-encoded table'),
+ 'C17': dict(
+   category='proof',
+   text=('SimpleEvaluator::evaluate and the piece-count chain are executed from MIR in exact integer mode (count_ones as an uninterpreted function into Int, '
+         'every cast / saturating op / checked multiply kept as explicit mod, clamp or panic obligation); z3 (linear integer arithmetic) shows '
+         'eval(S) == eval(mirror S) and eval(S) == -eval(S with the other side to move) for all counts within the maxima of legal chess, and that no overflow '
+         'panic is reachable. popcount(bswap x) == popcount(x) and popcount <= 64 are shown bit-precisely.'),
+   design_ref='5 (C17)',
+   note=TB + ' Bound: per colour <= 9 queens, <= 10 rooks/bishops/knights, <= 8 pawns.',
+   technique='symbolic execution of rustc MIR into z3 integer terms (exact integer mode) + bit-vector popcount lemmas; native replay'),
 }
 NA = {
  'C10': 'quantifies over OS-thread interleavings (relaxed AtomicBool + JoinHandle::is_finished); MIR has no thread semantics and Kani does not model concurrency - outside solver-based checking of the real code (DESIGN.md 6)',
